@@ -138,11 +138,12 @@ int main(int argc, char** argv) {
   std::vector<unsigned> lens;
   for (unsigned l = 0; l <= 70; l++) lens.push_back(l);
   for (unsigned l = 250; l <= 260; l++) lens.push_back(l);
+  for (unsigned l : {511u, 512u, 513u, 1023u, 1024u, 1025u, 4096u}) lens.push_back(l);
   t2.name = "T2_strings_all_bytes";
   t2.count = 256ull * lens.size() * 4;
   t2.group = "T2";
   t2.chunk = 64;
-  t2.rule = "API-built strings of every length 0..70 and 250..260 holding byte value b (0..255, incl. NUL, controls, non-UTF-8) at the first, middle, last position or everywhere; as root, array element, and object key + value";
+  t2.rule = "API-built strings of every length 0..70, 250..260 and 511..513, 1023..1025, 4096 holding byte value b (0..255, incl. NUL, controls, non-UTF-8) at the first, middle, last position or everywhere; as root, array element, and object key + value";
   // T3 numbers
   std::vector<ref::Value> nums;
   {
@@ -512,14 +513,21 @@ int main(int argc, char** argv) {
         check_doc(d, ref::Value::mkS(s), ctx, desc + " (root)");
       }
       {
+        // constant string nodes are not copied: each is a WINDOW into a longer caller buffer, directly followed by a
+        // quote, a backslash, a control byte (a string is bytes + length: what follows it in memory must not matter)
+        std::string w1 = "\"" + s + "\"\"\"", w2 = "\\" + s + "\\\\\\", w3 = "\x01" + s + "\x01\x01";
         Document d;
         d.SetArray();
-        d.PushBack(Node(s.data(), s.size()), d.GetAllocator());  // constant string node: not copied
+        d.PushBack(Node(w1.data() + 1, s.size()), d.GetAllocator());
         d.PushBack(Node(uint64_t(1)), d.GetAllocator());
+        d.PushBack(Node(w2.data() + 1, s.size()), d.GetAllocator());
+        d.PushBack(Node(w3.data() + 1, s.size()), d.GetAllocator());
         ref::Value v = ref::Value::mk(ref::Arr);
         v.a.push_back(ref::Value::mkS(s));
         v.a.push_back(ref::Value::mkU(1));
-        check_doc(d, v, ctx, desc + " (array element)");
+        v.a.push_back(ref::Value::mkS(s));
+        v.a.push_back(ref::Value::mkS(s));
+        check_doc(d, v, ctx, desc + " (array elements: windows into longer buffers)");
       }
       {
         Document d;
